@@ -180,7 +180,7 @@ def finish(a, cfg, hs, results, extra, seed, t0):
     if os.path.exists(kf_path):
         with open(kf_path) as f:
             known = json.load(f)
-    open_kf = [k for k in known.get("open", []) if k["property"] == prop]
+    open_kf = [k for k in known.get("open", []) if k["property"] == prop or prop in k.get("also", [])]
 
     # replays
     violations = []
